@@ -151,6 +151,8 @@ class Facts:
                 self.trait_impls[(_norm_core(f.impl_trait), f.name)].append(f.id)
             if f.trait_default and f.name:
                 self.trait_impls[(_norm_core(f.trait_default), f.name)].append(f.id)
+        self.direct_edges = set()
+        self.dispatch_only = set()   # (src, dst) edges that exist only by trait-dispatch over-approximation
         self.edges = collections.defaultdict(set)     # gid -> set(gid)
         self.edge_sites = collections.defaultdict(list)  # (src,dst) -> [(kind, line)]
         self.ext_calls = collections.defaultdict(list)   # gid -> [Call] to non-local callees
@@ -181,6 +183,8 @@ class Facts:
                     g = self._callee_gid(f.crate, cal["resolved"])
                     if g in self.fns:
                         targets.append(g)
+                        if not (cal.get("trait") and cal.get("resolved") == cal.get("path")):
+                            self.direct_edges.add((f.id, g))
                 elif cal.get("resolved") and _norm_core(cal["resolved"]) in self.fns and f.crate == WASM:
                     targets.append(_norm_core(cal["resolved"]))
                 elif cal.get("local") or (f.crate == WASM and "beff_core::" in (cal.get("path") or "")):
@@ -188,11 +192,15 @@ class Facts:
                     if g in self.fns and not cal.get("trait"):
                         targets.append(g)
                 # unresolved / virtual trait method calls: all local impls + default
+                # (dispatch edges: followed only when the impl's self type is instantiated, RTA)
                 if cal.get("trait") and (not cal.get("resolved") or cal.get("inst") == "Virtual"
                                          or cal.get("resolved") == cal.get("path")):
                     key = (_norm_core(cal["trait"]), cal["path"].rsplit("::", 1)[-1])
                     for g in self.trait_impls.get(key, []):
                         targets.append(g)
+                        tf = self.fns[g]
+                        if tf.impl_self and not tf.trait_default:
+                            self.dispatch_only.add((f.id, g))
                     g = self._callee_gid(f.crate, cal["path"])
                     if g in self.fns:
                         targets.append(g)
@@ -205,6 +213,8 @@ class Facts:
 
     def _edge(self, a, b, kind, line):
         self.edges[a].add(b)
+        if kind != "call":
+            self.direct_edges.add((a, b))
         self.edge_sites[(a, b)].append((kind, line))
 
     def _scan_operand(self, f, op, line):
@@ -265,6 +275,23 @@ class Facts:
     FMT_TRAITS = ("std::fmt::Debug", "std::fmt::Display", "std::fmt::LowerHex", "std::fmt::UpperHex",
                   "std::fmt::Pointer", "std::fmt::Binary", "std::fmt::Octal", "std::fmt::LowerExp", "std::fmt::UpperExp")
 
+    def instantiations(self, f):
+        """heads of the ADTs constructed (struct/variant literals) in f, crate-normalised"""
+        out = set()
+        if not f.mir:
+            return out
+        for b in f.mir["blocks"]:
+            for st in b["stmts"]:
+                if st["k"] == "Assign" and st["rv"]["k"] == "Aggregate" and st["rv"].get("agg") == "Adt":
+                    a = st["rv"]["adt"]
+                    if a.startswith("beff_core::"):
+                        out.add(a[len("beff_core::"):])
+                    elif f.crate == WASM:
+                        out.add(WASM + "::" + a)
+                    else:
+                        out.add(a)
+        return out
+
     def fmt_mentions(self, f):
         """type strings whose formatting impls may be invoked from f: arguments of format machinery
         (fmt::Argument::new_*), ToString::to_string receivers, and values coerced to `dyn Debug|Display`"""
@@ -312,14 +339,31 @@ class Facts:
                     fti[head].append(f.id)
         heads_seen = set()
         fmt_heads_seen = set()
+        instantiated = set()
+        pending = collections.defaultdict(list)   # self-type head -> [(src, dst)] dispatch edges waiting for an instance
         while work:
             g = work.pop()
             if g in seen or g not in self.fns:
                 continue
             seen.add(g)
             f = self.fns[g]
+            for head in self.instantiations(f):
+                if head not in instantiated:
+                    instantiated.add(head)
+                    for (a, b) in pending.pop(head, ()):
+                        if b not in seen:
+                            parent.setdefault(b, a)
+                            work.append(b)
             for h in self.edges.get(g, ()):
                 if h not in seen:
+                    if (g, h) in self.dispatch_only and (g, h) not in self.direct_edges:
+                        hf = self.fns[h]
+                        head = _type_head(_norm_core(hf.impl_self or ""))
+                        if hf.crate == WASM and not (hf.impl_self or "").startswith("beff_core::"):
+                            head = WASM + "::" + head
+                        if head not in instantiated:
+                            pending[head].append((g, h))
+                            continue
                     parent.setdefault(h, g)
                     work.append(h)
             # closures defined inside are reachable through creation edges only
